@@ -4,6 +4,10 @@
 package bal_slb
 
 import (
+	"time"
+)
+
+import (
 	"github.com/bfenetworks/bfe/bfe_balance/backend"
 )
 
@@ -21,7 +25,8 @@ func (brr *BalanceRR) VerifC03Backend(addrInfo string) *backend.BfeBackend {
 	return nil
 }
 
-// VerifC03SetRaw sets weight and current of the backend with the given AddrInfo, without x100 scaling.
+// VerifC03SetRaw sets weight, current and the slow-start target weight (weightSS.final) of the backend with the
+// given AddrInfo, without x100 scaling: the backend is as if it had been configured with weight/100.
 func (brr *BalanceRR) VerifC03SetRaw(addrInfo string, weight int, current int) {
 	brr.Lock()
 	defer brr.Unlock()
@@ -29,6 +34,19 @@ func (brr *BalanceRR) VerifC03SetRaw(addrInfo string, weight int, current int) {
 		if b.backend.AddrInfo == addrInfo {
 			b.weight = weight
 			b.current = current
+			b.weightSS.final = weight
+		}
+	}
+}
+
+// VerifC03AgeSlowStart is the clock of the slow start: it makes the backend's slow start (if any) look as if it
+// had begun `seconds` ago (weightSS.startTime = now - seconds).
+func (brr *BalanceRR) VerifC03AgeSlowStart(addrInfo string, seconds int) {
+	brr.Lock()
+	defer brr.Unlock()
+	for _, b := range brr.backends {
+		if b.backend.AddrInfo == addrInfo {
+			b.weightSS.startTime = time.Now().Add(-time.Duration(seconds) * time.Second)
 		}
 	}
 }
